@@ -112,6 +112,7 @@ type ruleFlagSet struct {
 	Key stringList // -k Key(s) to associate with the rule.
 
 	flagSet *flag.FlagSet
+	pathSet bool
 }
 
 func newRuleFlagSet() *ruleFlagSet {
@@ -127,7 +128,13 @@ func newRuleFlagSet() *ruleFlagSet {
 	rule.flagSet.Var((*valueFilterList)(&rule.Filters), "F", "filter")
 	rule.flagSet.Var(&rule.Syscalls, "S", "syscall name, number, or 'all'")
 	rule.flagSet.Var(&rule.Permissions, "p", "access type - r=read, w=write, x=execute, a=attribute change")
-	rule.flagSet.StringVar(&rule.Path, "w", "", "path to watch, no wildcards")
+	rule.flagSet.Func("w", "path to watch, no wildcards", func(value string) error {
+		if rule.pathSet {
+			return errors.New("path to watch specified more than once")
+		}
+		rule.Path, rule.pathSet = value, true
+		return nil
+	})
 	rule.flagSet.Var(&rule.Key, "k", "key")
 
 	return rule
@@ -316,6 +323,9 @@ type addFlag struct {
 }
 
 func (f *addFlag) Set(value string) error {
+	if *f != (addFlag{}) {
+		return errors.New("list and action specified more than once")
+	}
 	parts := strings.Split(value, ",")
 	if len(parts) > 2 {
 		return fmt.Errorf("expected a list type and action but got '%v'", value)
